@@ -153,6 +153,7 @@ def c05(chk, thorough):
         loo_sel = cv.cv3_inline_loo(chk, prog, fields)
         cv.cv2(chk, prog, roles, fields, loo_sel)
     cv.cv6(chk, prog)
+    threads.t6(chk, prog)          # the value reported by bootstrap CV is the mean of per-iteration predictions: accumulators are fresh per batch
     layout.run(chk, prog, {'modelvalidation.c': layout.FUNCTIONS['modelvalidation.c']})
     chk.floor('CV1.dispatch', 12)
     chk.floor('T3.create-join', 3)
